@@ -17,4 +17,14 @@ TEXT = {
   "note": "Trusted: Coq kernel+VM; hand model of flyio caveats/Access tied to the code by the per-run correspondence; translator cmd/facts for MemberFeatures and constants; the harness replaces flyio.Access.Now() by an input clock (embedding), time.Unix wrap-around is modelled explicitly (wrap64).",
   "technique": "Coq proof over executable model + in-Coq differential correspondence",
  },
+ "C09": {
+  "text": "Coq theorems (Properties/C09.v), generic in the id type and instantiated for integer, string and prefix ids: a resource set permits exactly when the set is valid (no wildcard mixed with other entries), some entry is the wildcard or matches (equal / prefix), and the action lies within 0xffff and within the mask of every matching entry (intersection); unspecified resource => ErrResourceUnspecified; mixed wildcard => ErrBadCaveat for every request; verdict invariant under permutation of entries (map order); IfPresent permits iff (some inner caveat is applicable and all applicable ones permit) or (none applicable and action within else), for arbitrary nesting; action caveat spec; permission is monotone in the action for every caveat of every registered type and every set (action_monotone). Model compared with the code exhaustively over small universes (~13k cases quick, ~150k thorough).",
+  "note": "Trusted: Coq kernel+VM; hand model (coq/Model/Prohibits.v) tied to the code by per-run correspondence; 'applies all its inner caveats' is read as documented and tested: inner caveats about resources the request does not specify are vacuous (stated explicitly in ifpresent_spec).",
+  "technique": "Coq proof over executable model + exhaustive small-scope in-Coq differential correspondence",
+ },
+ "C17": {
+  "text": "Coq theorems (Properties/C17.v): OrganizationScope's id is permitted by every (nested) Organization caveat and every request for another org is denied by the full set; AppScope/ClusterScope: listed ids clear the Apps/Clusters caveats, left-out ids are denied by the full set for every request naming them, 'unrestricted' only if every id clears; AppsAllowing: every listed app clears the full set for the action, the error shapes are exhaustive; the computed expiry is an upper bound: any request whose clock is after it is denied (nested windows, Go's wrapped time); DangerousUserID spec. All for arbitrary sets and nesting. Model compared with the flyio helpers and brute-force Validate on ~3.6k (quick) / ~90k (thorough) cases.",
+  "note": "Trusted: Coq kernel+VM; hand model (coq/Model/Scope.v) tied to the code by per-run correspondence + brute-force oracle; repaired defect F10 (ClusterScope lone wildcard) is in KNOWN_FINDINGS as fixed.",
+  "technique": "Coq proof over executable model + in-Coq differential correspondence",
+ },
 }
